@@ -6,6 +6,8 @@ import (
 	"math"
 	"reflect"
 	"strings"
+	"sync"
+	"sync/atomic"
 	"unicode/utf16"
 	"unicode/utf8"
 
@@ -23,19 +25,27 @@ import (
 // of JSON.stringify() if it may contain unicode characters. More cases could be added in the future.
 type importedString struct {
 	s string
-	u unicodeString
+	u unicodeString // written once (by the constructor or under scanOnce) before scanned is set, read-only afterwards
 
-	scanned bool
+	// String values are documented as goroutine-safe, so the lazy scan must be safe for concurrent use.
+	scanOnce sync.Once
+	scanned  atomic.Bool
+}
+
+func newScannedImportedString(s string, u unicodeString) *importedString {
+	i := &importedString{s: s, u: u}
+	i.scanned.Store(true)
+	return i
 }
 
 func (i *importedString) scan() {
 	i.u = unistring.Scan(i.s)
-	i.scanned = true
+	i.scanned.Store(true)
 }
 
 func (i *importedString) ensureScanned() {
-	if !i.scanned {
-		i.scan()
+	if !i.scanned.Load() {
+		i.scanOnce.Do(i.scan)
 	}
 }
 
@@ -165,9 +175,9 @@ func (i *importedString) Length() int {
 }
 
 func (i *importedString) Concat(v String) String {
-	if !i.scanned {
+	if !i.scanned.Load() {
 		if v, ok := v.(*importedString); ok {
-			if !v.scanned {
+			if !v.scanned.Load() {
 				return &importedString{s: i.s + v.s}
 			}
 		}
@@ -196,7 +206,7 @@ func (i *importedString) CompareTo(v String) int {
 }
 
 func (i *importedString) Reader() io.RuneReader {
-	if i.scanned {
+	if i.scanned.Load() {
 		if i.u != nil {
 			return i.u.Reader()
 		}
@@ -242,7 +252,7 @@ func (s *stringUtf16Reader) ReadRune() (r rune, size int, err error) {
 }
 
 func (i *importedString) utf16Reader() utf16Reader {
-	if i.scanned {
+	if i.scanned.Load() {
 		if i.u != nil {
 			return i.u.utf16Reader()
 		}
@@ -254,7 +264,7 @@ func (i *importedString) utf16Reader() utf16Reader {
 }
 
 func (i *importedString) utf16RuneReader() io.RuneReader {
-	if i.scanned {
+	if i.scanned.Load() {
 		if i.u != nil {
 			return i.u.utf16RuneReader()
 		}
